@@ -122,7 +122,14 @@ type pipeResult struct {
 }
 
 // runPipeline replays one scenario on a fresh server.
+// pipeTimeouts counts scenarios in which Serve did not return or replies never came; after four the rest of the sweep is
+// skipped (each costs tens of seconds and the violation is on record).
+var pipeTimeouts int
+
 func runPipeline(t testing.TB, tr *tracer, o srvOpts, sc scenario, salt int, diff bool) pipeResult {
+	if pipeTimeouts >= 4 {
+		return pipeResult{}
+	}
 	var root string
 	if o.kind == "server" {
 		root = prepRoot(t, "root")
@@ -282,6 +289,9 @@ func runPipeline(t testing.TB, tr *tracer, o srvOpts, sc scenario, salt int, dif
 	}
 	used := s.usedPages()
 	tr.emit("End", kv{"kind": sc.End, "nreq": res.nreq, "nresp": res.nresp, "timeout": res.timeout, "used": used})
+	if res.timeout {
+		pipeTimeouts++
+	}
 	// tear down
 	s.gate.releaseAll()
 	s.endEOF()
@@ -438,6 +448,9 @@ func diffPair(t testing.TB, tr *tracer, kind string, sc scenario, salt int) {
 		prog[i] = it
 	}
 	sc.Prog = prog
+	if pipeTimeouts >= 4 {
+		return
+	}
 	a := runPipeline(t, tr, srvOpts{kind: kind}, sc, salt, true)
 	b := runPipeline(t, tr, srvOpts{kind: kind, alloc: true}, sc, salt, true)
 	eq := bytes.Equal(a.out, b.out)
